@@ -79,6 +79,18 @@ theorem kernels_no_global_write {β : Type} (k : Kernel) (hk : k ∈ Gen.Kernels
   have := check_globals k hc j hmem
   omega
 
+/-- **public_kernels_return_no_module_state**: a translated public function that returns a value of its own (not a
+container it created) never returns an object of module-level state: if the returned variable refers to a
+caller-visible buffer at all, that buffer is one of the real arguments. -/
+theorem public_kernels_return_no_module_state {β : Type} (k : Kernel) (hk : k ∈ Gen.Kernels.all)
+    (hp : k.isPublic = true) (hcont : k.retContainer = false) (S : Sem β) (c : Nat) (vals : List β)
+    (hn : vals.length = k.nargs) (r : Var) (al : List Nat) (hr : (r, al) ∈ k.rets) (b : Nat)
+    (hb : (run S c k.ir (initState vals)).lookup r = some b) (hlt : b < k.nargs) : b < k.nreal := by
+  have hc := List.all_eq_true.mp kernels_checked k hk
+  have h1 := return_alias_sound S c k.ir vals r b hb (by omega)
+  rw [hn] at h1
+  exact check_ret_globals k hc hp hcont (r, al) hr b (check_sound_ret k hc r al hr c b h1)
+
 /-- non-vacuity: the table is not empty and contains public functions with aliasing conversions -/
 example : ∃ k ∈ Gen.Kernels.all, k.isPublic = true ∧ 0 < k.bits := by decide +kernel
 
